@@ -147,7 +147,7 @@ class ExecGen:
             return call('hostTick', s('leaf'))
         choices = ['direct', 'direct', 'direct'] + (['var'] if 'fn_index' not in scope else [])
         if self.k['callbacks']:
-            choices += ['hostCall', 'indexOf', 'lastIndexOf', 'partial']
+            choices += ['hostCall', 'indexOf', 'lastIndexOf', 'partial', 'sort']
             if self.k['data']:
                 choices += ['filter', 'calc', 'filter_vars', 'calc_vars']
         kind = r.choice(choices)
@@ -163,6 +163,9 @@ class ExecGen:
                 if r.random() < 0.7 else var(r.choice(scope['gens']))
             fn = 'arrayIndexOf' if kind == 'indexOf' else 'arrayLastIndexOf'
             return call(fn, arr, self.fn_ref(scope))
+        if kind == 'sort':
+            arr = call('arrayNew', *[num(r.randint(0, 5)) for _ in range(r.randint(0, 4))])
+            return call('arraySort', arr, self.fn_ref(scope))
         if kind == 'partial':
             return call('systemPartial', var(r.choice(names)), *self.call_args(scope)[:2] or [num(1)])
         # data expressions: rows are objects built by objectNew is outside the RefVM library; rows come from globals
@@ -484,6 +487,34 @@ class ExecGen:
         body = self.block(scope, 0, r.randint(3, k['max_top']))
         for d in late:
             body.insert(r.randint(0, len(body)), d)
+        # redefinition: the same name bound to a second body later (both bodies draw raw labels from the same
+        # small pool), with calls before and after — a function statement binds the name when it EXECUTES
+        if own_funcs and r.random() < k.get('p_redefine', 0.25):
+            name = r.choice(own_funcs)
+            pos = r.randint(0, len(body))
+            nargs = r.randint(0, 2)
+            body.insert(pos, ir.st_expr(call(name, *[num(r.randint(0, 3)) for _ in range(nargs)]), r.choice(scope['nums'])))
+            saved = self.k['raw_jumps']
+            self.k['raw_jumps'] = max(saved, 0.6)
+            self.budget += 10
+            body.insert(pos + 1, self.function(name, scope))
+            self.k['raw_jumps'] = saved
+            body.insert(r.randint(pos + 2, len(body)), ir.st_expr(call(name, *[num(r.randint(0, 3)) for _ in range(nargs)]),
+                                                                   r.choice(scope['nums'])))
+        # a partial made on one side of an include boundary and called on the other
+        if k['include'] and self.files and own_funcs and r.random() < 0.3:
+            target = r.choice(own_funcs)
+            done_files = [kf for kf, v in self.files.items() if v is not None and not v.get('data')]
+            if done_files and scope['includes']:
+                fkey = r.choice(done_files)
+                entry = self.files[fkey]
+                if r.random() < 0.5:
+                    entry['stmts'].append(ir.st_expr(call('systemPartial', var(target), num(1)), 'g0'))
+                    body.append(ir.st_expr(call('g0', num(2)), r.choice(scope['nums'])))
+                else:
+                    body.insert(0, ir.st_expr(call('systemPartial', var(target), num(1)), 'g1'))
+                    entry['stmts'].append(ir.st_expr(call('g1', num(3)), 'n2'))
+                fixup_file(entry)
         stmts.extend(body)
         if r.random() < 0.5:
             stmts.append(ir.st_return(self.any_expr(scope)))
